@@ -111,6 +111,9 @@ pub struct Ctx {
     pub assumptions: Mutex<Vec<String>>,
     pub rule: Mutex<String>,
     pub exhaustive: AtomicBool,
+    pub watchdog_ms: AtomicU64,
+    /// thorough tier: maximum number of indices per section (3M unless a binary with cheap cases raises it)
+    pub section_cap: AtomicUsize,
     pub states: AtomicU64,
     pub transitions: AtomicU64,
 }
@@ -197,6 +200,8 @@ impl Ctx {
             assumptions: Mutex::new(Vec::new()),
             rule: Mutex::new(String::new()),
             exhaustive: AtomicBool::new(true),
+            watchdog_ms: AtomicU64::new(60_000),
+            section_cap: AtomicUsize::new(3_000_000),
             states: AtomicU64::new(0),
             transitions: AtomicU64::new(0),
         }
@@ -229,8 +234,19 @@ impl Ctx {
         F: Fn(usize, &mut Local) + Sync,
     {
         let t0 = Instant::now();
-        let stride = if self.replay.is_some() { 1 } else { self.stride };
+        let mut stride = if self.replay.is_some() { 1 } else { self.stride };
         let full_n = n;
+        // thorough tier: no single section may exceed the section cap (default 3M indices, VERIF_SECTION_CAP overrides);
+        // a larger product is visited with an index stride, recorded per section, and the run is no longer `exhaustive`
+        if self.replay.is_none() && self.thorough() {
+            let cap: usize = std::env::var("VERIF_SECTION_CAP").ok().and_then(|v| v.parse().ok()).unwrap_or(self.section_cap.load(Ordering::Relaxed));
+            if n.div_ceil(stride) > cap {
+                stride = n.div_ceil(cap);
+            }
+        }
+        if stride > 1 {
+            self.exhaustive.store(false, Ordering::Relaxed);
+        }
         let n = n.div_ceil(stride);
         let count_pairs = self.prop == "C15";
         let next = AtomicUsize::new(0);
@@ -268,7 +284,8 @@ impl Ctx {
                     l
                 }));
             }
-            // watchdog
+            // watchdog (per index; 60 s unless the binary declares its indices to be whole explorations)
+            let self_watchdog_ms = self.watchdog_ms.load(Ordering::Relaxed);
             let status = &status;
             let done = &done;
             let wd = s.spawn(move || {
@@ -282,7 +299,7 @@ impl Ctx {
                     let now = start.elapsed().as_millis() as u64 + 1;
                     for st in status.iter() {
                         let t = st.0.load(Ordering::Relaxed);
-                        if t != 0 && now > t + 60_000 {
+                        if t != 0 && now > t + self_watchdog_ms {
                             let idx = st.1.load(Ordering::Relaxed);
                             let path = format!("{VERIF_DIR}/replays/C11-hang-{family}-{idx}.json");
                             let _ = std::fs::write(
@@ -313,6 +330,9 @@ impl Ctx {
             "family": family, "width": width, "cases": merged.cases, "applications": merged.evals,
             "index_space": full_n, "explored": n, "stride": stride, "wall_s": t0.elapsed().as_secs_f64(),
         });
+        if std::env::var("VERIF_PROGRESS").is_ok() {
+            eprintln!("[section] {family} {width}: cases={} wall={:.1}s", merged.cases, t0.elapsed().as_secs_f64());
+        }
         self.sections.lock().unwrap().push(sec);
         self.total.lock().unwrap().merge(merged);
     }
